@@ -26,6 +26,10 @@ CLAIMED["C03"] = ("Deductive proof of control-flow contracts: loop-exit conditio
   "Partial: what a body does is abstract (executeOne is used through its contract); iteration counts, forall operands, bind, name-lookup order and ifelse branch selection are not yet under contract (see evidence.not_covered). Trusted: govc, go/ssa, solvers.",
   "contract-based deductive verification: weakest-precondition style VCs over go/ssa of /repo, discharged by z3 4.8.12 / z3 5.1.0 / cvc5 1.0",
   "DESIGN.md §3 C03")
+CLAIMED["C07"] = ("Deductive proof of contracts on the CIDInit procedure set: each of the six end* operators moves exactly the pending block (operands unchanged: same string references, same destinations, in order) to the end of its own table, leaves all earlier entries of every table untouched and changes nothing on error; begin* operators reject counts outside 0..100 without storing anything; the seven endcmap comparators order by source code (code-space ranges by length, then code); block buffers never alias finished tables.",
+  "Partial: endcodespacerange entries, usecmap, the range-mapping rejection clauses (low > high) and ReadCMap's choice of the returned dictionary are not yet under functional contract; sort.Slice/bytes.Compare are trusted (see evidence). Trusted: govc, go/ssa, solvers.",
+  "contract-based deductive verification: weakest-precondition style VCs over go/ssa of /repo, discharged by z3 4.8.12 / z3 5.1.0 / cvc5 1.0",
+  "DESIGN.md §3 C07")
 NA = {}
 ALL = ["C%02d" % i for i in range(1, 21)]
 for p in ALL:
